@@ -34,3 +34,34 @@ func newSkipDelete(db db) db {
 		db: db,
 	}
 }
+
+// skipTombstonesDb hides, from iteration, the keys stored with an empty raw value, which is how this package encodes a
+// deleted key. Unlike skipDeletedDb it keeps keys which exist with an empty value (raw value of exactly one byte).
+type skipTombstonesDb struct {
+	db
+}
+
+func (db *skipTombstonesDb) NewIterator(prefix []byte) StorageIterator {
+	return &skipTombstonesIterator{StorageIterator: db.db.NewIterator(prefix)}
+}
+
+type skipTombstonesIterator struct {
+	StorageIterator
+}
+
+func (i *skipTombstonesIterator) Next() bool {
+	for {
+		if !i.StorageIterator.Next() {
+			return false
+		}
+		if len(i.StorageIterator.Value()) > 0 {
+			return true
+		}
+	}
+}
+
+func newSkipTombstones(db db) db {
+	return &skipTombstonesDb{
+		db: db,
+	}
+}
